@@ -362,7 +362,7 @@ def report(ctx, R):
 
 def run(ctx):
     t0 = time.time()
-    ctx.lean(['AmcVerif.Props.C15'], need_driver=False)
+    ctx.lean(['AmcVerif.Props.C15', 'AmcVerif.Props.C15b'], need_driver=False, extra_modules=['AmcVerif.Bridge.MemAlgoBridge'])
     t1 = time.time()
     maxn = max_n(ctx.tier)
     R = evaluate(ctx, maxn)
